@@ -92,7 +92,7 @@ pub fn kitchen_sink(variant: u32) -> Movie {
             MetaItem { typ: cc("desc"), type_code: 1, payload: b"Sum".to_vec(), pre: vec![(cc("mean"), vec![0; 4])], post: vec![] },
         ]),
         hdlr_last: false,
-        udta_extra: vec![], large_seed: 0,
+        udta_extra: vec![], large_seed: 0, hdlr_name: String::new(),
     });
     m
 }
@@ -196,7 +196,7 @@ pub fn bases(ctx: &Ctx, n_generated: usize) -> Vec<Base> {
                 MetaItem { typ: cc("desc"), type_code: 21, payload: vec![0xff, 0xfe], pre: vec![], post: vec![] },
             ]),
             hdlr_last: v == 0,
-            udta_extra: vec![], large_seed: 0,
+            udta_extra: vec![], large_seed: 0, hdlr_name: String::new(),
         });
         out.push(mk_base(format!("sinkmeta{}", v), build(&m).bytes, false));
     }
@@ -422,6 +422,56 @@ pub fn run_enumerated(ctx: &mut Ctx, bases: &[Base], weight: &dyn Fn(FieldKind) 
         }
     }
     ctx.extra.insert("cross_box_space".into(), serde_json::json!(idx));
+    // ---- consistent inflation: a count claims far more entries than the file holds and the sizes
+    // of its box and of the k nearest ancestors are raised to match, so that every check below
+    // level k passes; the first honest ancestor is the only one that can catch the lie ----
+    ctx.stage("inflate-chain");
+    let mut idx = 0u64;
+    for (bi, b) in bases.iter().enumerate() {
+        for f in b.fields.iter().filter(|f| matches!(f.kind, FieldKind::Count | FieldKind::Length) && weight(f.kind) != 0) {
+            // chain of boxes containing the field, outermost first
+            let mut chain: Vec<&PBox> = Vec::new();
+            let mut level: &[PBox] = &b.boxes;
+            loop {
+                match level.iter().find(|x| x.start <= f.off && f.off < x.end()) {
+                    Some(x) => {
+                        chain.push(x);
+                        level = &x.children;
+                    }
+                    None => break,
+                }
+            }
+            if chain.is_empty() {
+                continue;
+            }
+            for v in [1u64 << 16, 1 << 22, 1 << 27] {
+                let v = if f.width >= 8 { v } else { v & ((1u64 << (8 * f.width)) - 1) };
+                if v == 0 {
+                    continue;
+                }
+                for k in 1..=chain.len().min(5) {
+                    let my = idx;
+                    idx += 1;
+                    if !ctx.enter(my) {
+                        continue;
+                    }
+                    let mut bytes = b.bytes.clone();
+                    write_field(&mut bytes, f, v);
+                    let extra = v * 16;
+                    for x in chain.iter().rev().take(k) {
+                        let claimed = x.size as u64 + extra;
+                        if x.header >= 16 {
+                            bytes[x.start + 8..x.start + 16].copy_from_slice(&claimed.to_be_bytes());
+                        } else {
+                            bytes[x.start..x.start + 4].copy_from_slice(&(claimed.min(u32::MAX as u64) as u32).to_be_bytes());
+                        }
+                    }
+                    each(ctx, &AdvCase { bytes, desc: format!("{}: {} := {:#x} with the sizes of the {} enclosing box(es) raised by {}", b.name, fname(f), v, k, extra), touched: vec![f.kind, FieldKind::Size], base: bi });
+                }
+            }
+        }
+    }
+    ctx.extra.insert("inflate_chain_cases".into(), serde_json::json!(idx));
     // ---- box-tree surgery ----
     ctx.stage("surgery");
     let mut idx = 0u64;
